@@ -62,7 +62,36 @@ func Canon(v Value) Value {
 // map/set entry order and of struct field order. Empty containers compare by
 // size only (a compact empty map carries no key/value types).
 func Same(a, b Value) bool {
-	return same(Canon(a), Canon(b))
+	return same(Canon(stripEmptyMapTypes(a)), Canon(stripEmptyMapTypes(b)))
+}
+
+// stripEmptyMapTypes clears the key/value types of empty maps (a compact empty
+// map carries none), so that they do not influence the canonical order.
+func stripEmptyMapTypes(v Value) Value {
+	out := v
+	switch v.T {
+	case List, Set, Map:
+		if v.T == Map && len(v.Elems) == 0 {
+			out.KT, out.ET = Stop, Stop
+			return out
+		}
+		out.Elems = make([]Value, len(v.Elems))
+		for i, x := range v.Elems {
+			out.Elems[i] = stripEmptyMapTypes(x)
+		}
+		if v.T == Map {
+			out.Keys = make([]Value, len(v.Keys))
+			for i, x := range v.Keys {
+				out.Keys[i] = stripEmptyMapTypes(x)
+			}
+		}
+	case Struct:
+		out.Fields = make([]Field, len(v.Fields))
+		for i, f := range v.Fields {
+			out.Fields[i] = Field{ID: f.ID, V: stripEmptyMapTypes(f.V)}
+		}
+	}
+	return out
 }
 
 func same(a, b Value) bool {
